@@ -15,7 +15,7 @@ def modelTraitRow (name : String) : Option (String × List String) :=
   match Kind.fromStr name with
   | none => none
   | some k =>
-    let path := canon (k.path ++ (match k with | .bin _ | .assign _ => angle ["X"] | _ => []))
+    let path := canon (k.path +++ (match k with | .bin _ | .assign _ => angle ["X"] | _ => [])).strs
     let methods : List String := match k with
       | .bin o => [o.func] | .assign o => [o.func ++ "_assign"] | .un o => [o.func]
       | .cmp .ord => ["cmp"] | .cmp .partialOrd => ["partial_cmp"] | .cmp .eq => [] | .cmp .partialEq => ["eq"]
